@@ -5,6 +5,21 @@ HERE = os.path.dirname(os.path.dirname(os.path.abspath(__file__)))
 ALL = ["C%02d" % i for i in range(1, 21)]
 
 CHECKS = {
+ "C20": dict(
+  category="model_checking",
+  text="Exmod.tla: the file system as a set of paths, a package tree of 1..3 levels, Exmod(opts) with dry-run, recursion, "
+       "blacklist/whitelist and a pre-existing or missing output directory; TLC checks DryRunPure, UnderOut, SourceUntouched and "
+       "ExcludedSilent over all 832 option records (ideal) and their as-built weakening with the listed deviations. Binding: every "
+       "option record (seeded 280 in quick, all 832 in thorough) is laid out as a real package in a scratch directory and the real "
+       "exmod command runs in-process under the audit-hook recorder; verdicts: the four predicates on before/after snapshots "
+       "(paths, sha256) of the whole scratch tree, every generated .py is valid Python whose __all__ names defined or imported "
+       "symbols, and the audit-event trace is validated by TLC against the Effects monitor (no write/mkdir/remove/rename at all "
+       "on a dry run, only under the output directory otherwise).",
+  design_ref="DESIGN.md section 4, C20",
+  note="Trusted: snapshots + audit events as the observation of file-system effects; exmod runs in-process with the package's parent "
+       "on sys.path. Crashes of individual emit kinds are not judged (only their effects are).",
+  technique="TLA+ file-system model checked by TLC; every option record replayed through the real command with snapshot diff and "
+            "audit-trace validation against the Effects monitor"),
  "C17": dict(
   category="model_checking",
   text="Effects.tla is a monitor of interpreter-level effects (exec by code shape, import, open-for-write / mkdir / remove / rename by "
